@@ -228,7 +228,12 @@ def run_driver(ops):
 # ------------------------------------------------------------------------------------------------
 def run_translator():
     """regenerate lean/BlockCiphers/Gen/*.lean from /repo; returns dict of broken extractions"""
-    rc, out, err = sh([sys.executable, os.path.join(ROOT, "translator", "translate.py")], timeout=600)
+    # a change inside the kuznyechik crate regenerates ~12 files whose const-fn tables the translator has to evaluate
+    # (≈ 10–13 min); everything else is seconds (per-crate cache)
+    try:
+        rc, out, err = sh([sys.executable, os.path.join(ROOT, "translator", "translate.py")], timeout=3600)
+    except subprocess.TimeoutExpired:
+        return ["translator did not finish within 3600 s"]
     broken = []
     for l in out.splitlines():
         if l.startswith("BROKEN "):
